@@ -442,6 +442,18 @@ let et_oracle en ty kind mode elems obs =
   obs = Printf.sprintf "ET %d %s" (List.length elems)
           (dotted (if en then vis_e_plain (spec_enumerate elems) else vis_r_plain (List.rev elems)))
 
+(* ---- binding forms of the enumerate loop variable: write-through and aliasing hold for every form ---- *)
+let bf_valid form kind n =
+  List.mem form ["a"; "f"; "c"; "k"; "h"] &&
+  (match kind with "vec" | "list" | "deq" | "map" | "fv" -> true | "arr" -> n <= mc_maxn | "carr" -> n >= 1 && n <= mc_maxn | _ -> false)
+let bf_model form kind elems =
+  if not (bf_valid form kind (List.length elems)) then "BADCASE" else
+  out_str (fun (vs, c) -> Printf.sprintf "BF %s %s" (ones (List.length vs)) (dotted (String.concat "," c)))
+    (enumerate_for (fun _ s -> s ^ "x") (List.map string_of_int elems))
+let bf_oracle form kind elems obs =
+  if not (bf_valid form kind (List.length elems)) then obs = "BADCASE" else
+  obs = Printf.sprintf "BF %s %s" (ones (List.length elems)) (dotted (String.concat "," (List.map (fun v -> string_of_int v ^ "x") elems)))
+
 (* ------------------------------------------------------------------ dispatch *)
 let model (w : string list) : string =
   try
@@ -474,6 +486,7 @@ let model (w : string list) : string =
     | [("en" | "rv") as a; kind; mode; elems] -> iter_model (a = "en") kind mode (ints_of_wire elems)
     | ["mi"; ("en" | "rv") as a; kind; mode; elems] -> if mi_valid kind mode then mi_line (a = "en") (ints_of_wire elems) else "BADCASE"
     | ["et"; ("en" | "rv") as a; ty; kind; mode; elems] -> et_model (a = "en") ty kind mode (ints_of_wire elems)
+    | ["bf"; form; kind; elems] -> bf_model form kind (ints_of_wire elems)
     | ["re"; sc; kind; mode; elems] -> reuse_model sc kind mode (ints_of_wire elems)
     | ["ow"; sc; ("en" | "rv") as a; kind; e1; e2] -> ow_model sc (a = "en") kind (ints_of_wire e1) (ints_of_wire e2)
     | "mc" :: sc :: kind :: mode :: (([_; _] | [_; _; _]) as es) -> mc_model sc kind mode (List.map ints_of_wire es)
@@ -512,6 +525,7 @@ let oracle (w : string list) (obs : string) : bool =
   | [("en" | "rv") as a; kind; mode; elems], _ -> iter_oracle (a = "en") kind mode (ints_of_wire elems) obs
   | ["mi"; ("en" | "rv") as a; kind; mode; elems], _ -> if mi_valid kind mode then obs = mi_spec (a = "en") (ints_of_wire elems) else obs = "BADCASE"
   | ["et"; ("en" | "rv") as a; ty; kind; mode; elems], _ -> et_oracle (a = "en") ty kind mode (ints_of_wire elems) obs
+  | ["bf"; form; kind; elems], _ -> bf_oracle form kind (ints_of_wire elems) obs
   | ["re"; sc; kind; mode; elems], _ -> reuse_oracle sc kind mode (ints_of_wire elems) obs
   | ["ow"; sc; ("en" | "rv") as a; kind; e1; e2], _ -> ow_oracle sc (a = "en") kind (ints_of_wire e1) (ints_of_wire e2) obs
   | "mc" :: sc :: kind :: mode :: (([_; _] | [_; _; _]) as es), _ -> mc_oracle sc kind mode (List.map ints_of_wire es) obs
